@@ -117,6 +117,7 @@ def run_tlc(
     timeout: int = 900,
     extra: t.Sequence[str] = (),
     heap: str = "6g",
+    xss: str = "",
     expect_ok: bool = True,
     spec_dir: str = SPEC,
     tag: str = "",
@@ -128,6 +129,7 @@ def run_tlc(
         "java",
         "-XX:+UseParallelGC",
         f"-Xmx{heap}",
+        *([f"-Xss{xss}"] if xss else []),
         "-cp",
         TLA_CP,
         "tlc2.TLC",
